@@ -45,7 +45,7 @@ def token(rng, forbid, lo=1, hi=8, first_forbid="", inner_blank=False):
 WORDS = ["Yes Please", "TRUE", "No", "oN", "yes", "0", "1", "0x1F", "017", "-42", "3.5e3", "NaN", "hello", "a b  c", "Off", "fAlSe"]
 
 
-def gen_conventional(rng, D, C, nlines, plain=False, rich=False, sections=True, max_key=8, cont_trail=True):
+def gen_conventional(rng, D, C, nlines, plain=False, rich=False, sections=True, max_key=8, cont_trail=True, inner_quotes=True):
     """returns (lines, kinds, pairs): kinds[i] in blank|comment|header|entry|entry_plain|cont
     (entry_plain: an entry a continuation line may follow); pairs is the
     list of [section|None, key] in file order (keys are unique per section)."""
@@ -89,6 +89,12 @@ def gen_conventional(rng, D, C, nlines, plain=False, rich=False, sections=True, 
         for _ in range(30):
             v = token(rng, BL + C + '"', 1, 10, first_forbid=D, inner_blank=inner)
             if v and v[0] not in BL and v[-1] not in BL and v != "_none_":
+                if inner_quotes and len(v) >= 2 and rng.chance(0.15):
+                    # a double quote inside (not at the start of) plain text is ordinary text: 5" floppy
+                    k = rng.randrange(1, len(v))
+                    v = v[:k] + '"' + v[k:]
+                    if rng.chance(0.3):
+                        v += '"'
                 return v
         return "v"
 
@@ -160,7 +166,7 @@ def gen_conventional(rng, D, C, nlines, plain=False, rich=False, sections=True, 
                     line += gen_plain_value()
                     pk = "entry_plain"
                 elif vk < 0.8:
-                    line += '"' + token(rng, '"', 0, 10, inner_blank=True) + '"'
+                    line += '"' + blanks(rng, 0, 1 if rng.chance(0.3) else 0) + token(rng, '"', 0, 10, inner_blank=True) + blanks(rng, 0, 2 if rng.chance(0.3) else 0) + '"'
                 else:
                     pass   # missing value
                 if not plain and rng.chance(0.2) and cls != "NONE":
